@@ -52,7 +52,8 @@ Aunts(leaves, i) ==
        IN IF i < k THEN Append(Aunts(l, i), Root(r))
                    ELSE Append(Aunts(r, i - k), Root(l))
 
-Proof(leaves, i) == [total |-> Len(leaves), index |-> i, leaf |-> LeafH(leaves[i + 1]),
+\* big: the stated leaf count is total + big * 2^32 (TLC integers are 32-bit; Proof.Total is an int64 taken from the wire)
+Proof(leaves, i) == [total |-> Len(leaves), big |-> 0, index |-> i, leaf |-> LeafH(leaves[i + 1]),
                      aunts |-> Aunts(leaves, i)]
 
 \* ---------------------------------------------------------------- proof.go
@@ -74,6 +75,7 @@ ComputeRoot(index, total, leaf, aunts) ==
 
 \* Proof.Verify(root, item) = nil error
 Verify(p, root, item) ==
+  /\ p.big = 0        \* a tree of 2^32 leaves or more has paths of 33+ aunts: no proof over the modelled trees has that shape
   /\ p.total >= 0
   /\ p.index >= 0
   /\ (Weak_NoLeafCheck \/ p.leaf = LeafH(item))
@@ -115,6 +117,8 @@ Candidates(leaves, i) ==
       its  == {leaves[j] : j \in 1..n} \cup {"zz"}
   IN   {[proof |-> [g EXCEPT !.index = k, !.total = t], item |-> leaves[i + 1], mut |-> "index_total"] :
            k \in -1..(n + 2), t \in -1..(n + 3)}
+  \cup {[proof |-> [g EXCEPT !.total = t, !.big = b], item |-> leaves[i + 1], mut |-> "total_high_bits"] :
+           t \in {n, n + 1}, b \in {1, 3, 1024}}
   \cup {[proof |-> [g EXCEPT !.leaf = h], item |-> leaves[i + 1], mut |-> "leaf"] : h \in pool}
   \cup {[proof |-> g, item |-> x, mut |-> "item"] : x \in its}
   \cup {[proof |-> [g EXCEPT !.leaf = LeafH(x)], item |-> x, mut |-> "leaf_and_item"] : x \in its}
@@ -132,7 +136,7 @@ RealCases == Cases
 
 \* what the property demands of an accepted (proof,item) against Root(leaves)
 Binds(leaves, p, item) ==
-  /\ p.total = Len(leaves)
+  /\ p.total = Len(leaves) /\ p.big = 0
   /\ p.index \in 0..(Len(leaves) - 1)
   /\ item = leaves[p.index + 1]
 
@@ -141,6 +145,7 @@ Binds(leaves, p, item) ==
 ShapeAlias(leaves, p, item) ==
   \E j \in 0..(Len(leaves) - 1) :
      /\ leaves[j + 1] = item
+     /\ p.big = 0
      /\ Shape(p.index, p.total) = Shape(j, Len(leaves))
      /\ p.aunts = Aunts(leaves, j)
      /\ p.leaf = LeafH(item)
@@ -170,7 +175,7 @@ PartCandidates(leaves) ==
 AddPart(hdr, slots, p) ==
   IF p.index >= hdr.total THEN [slots |-> slots, added |-> FALSE, err |-> "UnexpectedIndex"]
   ELSE IF slots[p.index + 1] # Nil THEN [slots |-> slots, added |-> FALSE, err |-> "none"]
-  ELSE IF ~Weak_NoProofIndexBinding /\ (p.proof.index # p.index \/ p.proof.total # hdr.total)
+  ELSE IF ~Weak_NoProofIndexBinding /\ (p.proof.index # p.index \/ p.proof.total # hdr.total \/ p.proof.big # 0)
        THEN [slots |-> slots, added |-> FALSE, err |-> "InvalidProof"]
   ELSE IF ~Verify(p.proof, hdr.root, p.bytes) THEN [slots |-> slots, added |-> FALSE, err |-> "InvalidProof"]
   ELSE [slots |-> [slots EXCEPT ![p.index + 1] = p.bytes], added |-> TRUE, err |-> "none"]
